@@ -601,6 +601,8 @@ CORPUS = [
 
 
 def run(ctx):
+    from props import cli_proc
+    cli_proc.stream(ctx, ['C19'])
     _stack()
     rng = ctx.rng
     quick = ctx.tier == 'quick'
@@ -639,6 +641,9 @@ def run(ctx):
 
 
 def replay_case(ctx, case):
+    if isinstance(case, dict) and case.get('kind') == 'cli-process':
+        from props import cli_proc
+        return cli_proc.replay(case)
     _stack()
     twin = case.get('twin')
     case = {k: v for k, v in case.items() if k not in ('twin', 'malformed')}
@@ -661,6 +666,8 @@ def replay_case(ctx, case):
 
 
 def shrink(ctx, case):
+    if isinstance(case, dict) and case.get('kind') == 'cli-process':
+        return case
     def fails(c):
         try:
             return not replay_case(ctx, c)['holds']
@@ -700,4 +707,6 @@ def shrink(ctx, case):
 
 
 def classify(case, detail):
+    if isinstance(case, dict) and case.get('kind') == 'cli-process':
+        return None
     return None
